@@ -1,6 +1,7 @@
 (* operation programs: MODEL interpreter (Run.step_model) and SPEC interpreter (Run.step_spec)
    over the same program text the Go harness executed *)
 open Model
+type string = Stdlib.String.t  (* Model defines Coq's string inductive; keep OCaml's name *)
 open Proto
 
 let split_ops s = String.split_on_char ';' s
